@@ -9,9 +9,14 @@
   and the punctuation strip are the model's.
 -/
 import PyndlProofs.Text
+import PyndlModel.Generated
 
 namespace Pyndl.C11
 open Pyndl Pyndl.Text
+
+/-- the punctuation set the word counter strips is the literal in count.py
+    (`Generated.lean` is regenerated from /repo on every run) -/
+theorem literals_match_source : Generated.countPunct.toList = punct := by decide +kernel
 
 /-- **The `n` strided slices `islice(xs, k, None, n)`, `k < n`, partition `xs`**
     for every `n ≥ 1` — also `n > |xs|` (the surplus slices are empty), also
